@@ -22,7 +22,7 @@ import ast
 import itertools
 from types import SimpleNamespace
 
-from ..astmatch import assignments, guard_atoms, guards, leaves, match, resolve, strip_wrappers
+from ..astmatch import alternatives, assignments, guard_atoms, guards, leaves, match, resolve, strip_wrappers
 from ..dtab import DT, Sym, Unsupported, enumerate_block
 from ..linform import compare_form, linform
 from ..pm import AnalysisError, dotted, unparse, walk_no_nested
@@ -700,7 +700,20 @@ def _change_flags(ctx: Ctx, c, grp: str, other: str, X: str, scope_fns: list) ->
                 if len(g.generators) == 1 and not g.generators[0].ifs and isinstance(g.generators[0].target, ast.Name) and isinstance(g.elt, ast.Compare) and not neg:
                     cmp_, col, cols = g.elt, g.generators[0].target.id, g.generators[0].iter
         if cmp_ is None or len(cmp_.ops) != 1 or not isinstance(cmp_.ops[0], (ast.NotEq, ast.Eq)):
-            ctx.gap("R04.4", f"the value `{unparse(val)[:70]}` stored as {grp} group-start flag could not be interpreted")
+            # a comparison of per-row KEYS: positive evidence if the keys are the group columns glued together without a
+            # separator (('1','12') and ('11','2') then collide and a real group change is missed)
+            glued = None
+            for alt in alternatives(val, fn):
+                for x in ast.walk(alt):
+                    if isinstance(x, ast.Call) and isinstance(x.func, ast.Attribute) and x.func.attr == "join" and _const(x.func.value, ""):
+                        glued = x
+                    if isinstance(x, ast.Call) and dotted(x.func).endswith("concat_str") and not any(k.arg == "separator" and not _const(k.value, "") for k in x.keywords):
+                        glued = x
+            if glued is not None:
+                ctx.violation("R04.4", c.short, key, c.where(s), f"{grp} group starts are decided by comparing keys built with `{unparse(glued)[:60]}`: "
+                              "columns concatenated without a separator make ('1','12') and ('11','2') equal, so a real group change is missed")
+            else:
+                ctx.gap("R04.4", f"the value `{unparse(val)[:70]}` stored as {grp} group-start flag could not be interpreted")
             continue
         l, r = cmp_.left, cmp_.comparators[0]
         wrapped = [isinstance(x, ast.Call) and dotted(x.func) == "str" and len(x.args) == 1 for x in (l, r)]
